@@ -202,3 +202,59 @@ Print Assumptions C05_refine_volume_correct.
 
 Example C05_default_ok_satisfiable : default_ok (1/1000) 2 exU 4 1.        Proof. exact default_ok_satisfiable. Qed.
 Example C05_refine_ok_satisfiable  : refine_ok  (1/1000) 2 exU 4 exX.      Proof. exact refine_ok_satisfiable. Qed.
+
+(* ====================== TRANSLATOR TIE (Proofs/GenTie*.v) ======================
+   coq/Gen/*.v is the Gallina rendering of the Python source produced by harness/pytrans.py; every run of ./check regenerates it
+   from /repo and compares it function by function with the committed text (evidence: translator_tie).  The theorems below say
+   that the hand-written model (the subject of the theorems above) computes, for ALL inputs satisfying the stated
+   well-formedness, exactly what the translated source computes.  This block stays LAST in the file: its imports shadow
+   model names. *)
+From Coq Require Import List QArith Reals Qreals Lia Lra Arith Bool ZArith.
+From NV Require Import Scalar.Ops Model.Common Model.Basis Model.Knots Model.KnotIns Model.KnotRem Model.LinAlg Model.Degree
+  Gen.Prelude Gen.LinalgInternal Gen.Linalg Gen.Knotvector Gen.Helpers
+  Proofs.GenTieSums Proofs.GenTieLinAlg Proofs.GenTieSubst Proofs.GenTieLU Proofs.GenTieLUSolve Proofs.GenTieKnotRem Proofs.GenTieDegree
+  Proofs.GenTieLib Proofs.GenTieKnots Proofs.GenTieSpan Proofs.GenTieBasis Proofs.GenTieBasisOne
+  Proofs.GenTieDersOne Proofs.GenTieDersLib Proofs.GenTieDers Proofs.GenTieKnotIns.
+Local Open Scope nat_scope.
+
+From NV Require Import Model.KnotRefine Proofs.GenTieRefine.
+
+(* [G] helpers.knot_refinement, control points = lists of coordinates, knot_list given (the default is knotvector[degree:-degree]),
+   tol = the default 10e-8 (see the README: the source takes the multiplicities with find_multiplicity's OWN default tolerance, the
+   model with knot_refinement's tol).  GeomdlException <-> Rejected; where the bisection loop reads its loop variable after an
+   empty loop (fewer than two distinct knots: UnboundLocalError <-> Crash) the generated code gives up: GErr OutOfFuel.
+   wf: at least one control point, non-empty; degree < len(ctrlpts); len(knotvector) = len(ctrlpts) + degree + 1; the span of the
+   first inserted knot is not above that of the last; every inserted knot is <= every knot from the index b = span(X[r]) + 1 on
+   (true for a non-decreasing knot vector; it keeps the indices of A5.4 inside the arrays).  Under refine_laws (order_laws +
+   (y < x -> not x <= y); Rops and Qops): sorted(set(...)) of the source uses == and <, the model < and <= *)
+Theorem C05_gen_knot_refinement_R : forall (p dn : nat) (U : list R) (P : list (list R)) (kl add : list R) (check : bool),
+  P <> [] -> nth O P [] <> [] -> p < length P -> length U = length P + p + 1 ->
+  (forall X, refine_plan Rops (Helpers.find_multiplicity__default_tol Rops) check p U (Some kl) add dn = Ok X ->
+     let n := length P - 1 in let r := length X - 1 in
+     let a := Basis.find_span_linear Rops p U (S n) (nth O X 0%R) in
+     let b := S (Basis.find_span_linear Rops p U (S n) (nth r X 0%R)) in
+     a < b /\ forall x i, In x X -> b <= i -> i < length U -> oleb Rops x (kn Rops U i) = true) ->
+  HelpersB.knot_refinement Rops (Z.of_nat p) U P add check (Z.of_nat dn) kl (Helpers.find_multiplicity__default_tol Rops) =
+  res_to_gres (fun x => x) GeomdlError OutOfFuel
+    (KnotRefine.knot_refinement Rops (Helpers.find_multiplicity__default_tol Rops) check p U P (Some kl) add dn).
+Proof. exact knot_refinement_tie_R. Qed.
+Print Assumptions C05_gen_knot_refinement_R.
+Theorem C05_gen_knot_refinement_Q : forall (p dn : nat) (U : list Q) (P : list (list Q)) (kl add : list Q) (check : bool),
+  P <> [] -> nth O P [] <> [] -> p < length P -> length U = length P + p + 1 ->
+  (forall X, refine_plan Qops (Helpers.find_multiplicity__default_tol Qops) check p U (Some kl) add dn = Ok X ->
+     let n := length P - 1 in let r := length X - 1 in
+     let a := Basis.find_span_linear Qops p U (S n) (nth O X 0%Q) in
+     let b := S (Basis.find_span_linear Qops p U (S n) (nth r X 0%Q)) in
+     a < b /\ forall x i, In x X -> b <= i -> i < length U -> oleb Qops x (kn Qops U i) = true) ->
+  HelpersB.knot_refinement Qops (Z.of_nat p) U P add check (Z.of_nat dn) kl (Helpers.find_multiplicity__default_tol Qops) =
+  res_to_gres (fun x => x) GeomdlError OutOfFuel
+    (KnotRefine.knot_refinement Qops (Helpers.find_multiplicity__default_tol Qops) check p U P (Some kl) add dn).
+Proof. exact knot_refinement_tie_Q. Qed.
+Print Assumptions C05_gen_knot_refinement_Q.
+Example C05_gen_nonvacuous :
+  HelpersB.knot_refinement Qops 3 [0; 0; 0; 0; 1#2; 1; 1; 1; 1]%Q [[0; 0]; [1#2; 1]; [2; 2]; [7#2; 1]; [4; 0]]%Q [] true 1 [0; 1#2; 1]%Q
+    (Helpers.find_multiplicity__default_tol Qops) =
+  res_to_gres (fun x => x) GeomdlError OutOfFuel
+    (KnotRefine.knot_refinement Qops (Helpers.find_multiplicity__default_tol Qops) true 3 [0; 0; 0; 0; 1#2; 1; 1; 1; 1]%Q
+       [[0; 0]; [1#2; 1]; [2; 2]; [7#2; 1]; [4; 0]]%Q None [] 1).
+Proof. vm_compute; reflexivity. Qed.
